@@ -40,6 +40,8 @@ VERIF_FAIL = [
     ('precondition not met: index in bounds', 'bounds'),
     ('precondition not met', 'precondition-at-call'),
     ('assertion failed', 'assertion'),
+    # `assert(P) by (nonlinear_arith) requires Q`: Q could not be shown at the hint - a failed proof step inside the body, like a failed assertion
+    ('requires not satisfied', 'assertion'),
     ('possible arithmetic underflow/overflow', 'overflow'),
     ('possible bit shift underflow/overflow', 'shift-overflow'),
     ('possible division by zero', 'div-by-zero'),
